@@ -19,7 +19,7 @@ for p in props:
          "evidence_file":"/verif/evidence/%s.json"%pid,
          "replay_cmd_template":"bin/govc replay {path}",
          "engine":"govc",
-         "level_claimed":{"category":"proof","text":m['text'],"design_ref":m.get('design_ref','DESIGN.md section 7 '+pid)},
+         "level_claimed":{"category":"proof","text":m['text'],"design_ref":m.get('design_ref','DESIGN.md section 12.3 (as built) and section 7 '+pid)},
          "level_note":"NOT DECIDED: "+"; ".join(spec.get('not_decided',[]))+" | ASSUMED: "+"; ".join(spec.get('assumptions',[]))+" | plus the trusted base listed in the evidence file (go/ssa lowering, SMT solvers, amd64, single thread, assumed library contracts)",
          "technique":m.get('technique',"contract-based deductive verification: VCs generated from go/ssa of /repo under //@ contracts, discharged by z3/cvc5")})
 na=[{"property_id":p['id'],"reason":meta['not_applicable'].get(p['id'],"check not built yet (engine under construction); see DESIGN.md section 7")} for p in props if p['id'] not in claimed]
